@@ -114,7 +114,7 @@ func TestWorker(t *testing.T) {
 		t.Fatal(err)
 	}
 	out = bufio.NewWriter(os.Stdout)
-	debug.SetMaxStack(512 << 20)
+	debug.SetMaxStack(64 << 20)
 	if job.HangSec == 0 {
 		job.HangSec = 20
 	}
